@@ -190,6 +190,7 @@ def run_conc_property(pid, tier, seed, replay, *, judges, classify=None, n_quick
         lines = corpus_progs(pid) + (extra_lines(rng, tier) if extra_lines else []) + gen_programs(rng, n, flags, **(gen_kw or {}))
         lines = ["q%d|" % i + l.split("|", 1)[1] for i, l in enumerate(lines)]
     recs = conc.run_progs(lines)
+    n_ran = len(recs)
     by_id = {l.split("|", 1)[0]: l for l in lines}
     explored = 0
     if tier == "thorough" and not replay:
@@ -241,8 +242,8 @@ def run_conc_property(pid, tier, seed, replay, *, judges, classify=None, n_quick
     ck.cov["traces_validated_against_impl"] = len(recs)
     ck.extra["input_distribution"] = dict(programs=len(lines), threads_histogram=thr_hist, scheduled_steps=steps,
                                           dfs_bounded_preemption_runs=explored)
-    if len(recs) != len(lines):
-        ck.oblige("harness ran all programs", False, "%d of %d" % (len(recs), len(lines)))
+    if n_ran != len(lines):
+        ck.oblige("harness ran all programs", False, "%d of %d" % (n_ran, len(lines)))
     if corr:
         ck.oblige("correspondence: every scheduled step, return value and final state of the implementation is reproduced by Model/Conc.v (accept)",
                   not corr_bad, "%d runs differ" % len(corr_bad))
